@@ -20,6 +20,18 @@ import (
 type c01case struct {
 	gg.Case
 	RtMax int `json:"rtmax,omitempty"`
+	// Entry: the public entry point of the root: "" (Invoke) | "stream" | "transform" (see stream.go)
+	Entry string `json:"entry,omitempty"`
+}
+
+func (c *c01case) entryNo() uint64 {
+	switch c.Entry {
+	case "stream":
+		return 1
+	case "transform":
+		return 2
+	}
+	return 0
 }
 
 // effective: the case the model and the oracle see (the root's limit replaced by the runtime one)
@@ -46,8 +58,19 @@ func (engine) Generate(r *lib.Rng, tier string, i int) any {
 	if r.Chance(1, 12) {
 		corruptBranch(r, &c.Case)
 	}
+	if r.Chance(1, 5) {
+		addOutKeys(r, &c.Case)
+	}
 	if r.Chance(1, 8) {
 		c.RtMax = r.Range(1, 9)
+	}
+	if streamable(&c.Case) {
+		switch x := r.Intn(8); {
+		case x < 2:
+			c.Entry = "stream"
+		case x == 2:
+			c.Entry = "transform"
+		}
 	}
 	return c
 }
@@ -132,6 +155,39 @@ func corruptBranch(r *lib.Rng, c *gg.Case) {
 	}
 }
 
+// addOutKeys: WithOutputKey on nodes of any-predecessor GRAPHS (the shared generator only sets output keys in
+// the Parallel stages of chains): the node's output becomes {k: output} before it is routed, so the branch
+// conditions of that node and all its successors see the wrapped value (model: wrap_out in run_task).
+func addOutKeys(r *lib.Rng, c *gg.Case) {
+	next := uint64(1100)
+	for gi := range c.Forest {
+		g := &c.Forest[gi]
+		if g.Front != "graph" || g.Mode != "pregel" {
+			continue
+		}
+		for ni := range g.Nodes {
+			n := &g.Nodes[ni]
+			if n.Key != gg.START && n.OutKey == 0 && r.Chance(1, 3) {
+				n.OutKey = next
+				next++
+			}
+		}
+	}
+}
+
+func hasGraphOutKey(c *gg.Case) bool {
+	for gi := range c.Forest {
+		if g := &c.Forest[gi]; g.Front == "graph" {
+			for ni := range g.Nodes {
+				if g.Nodes[ni].OutKey != 0 {
+					return true
+				}
+			}
+		}
+	}
+	return false
+}
+
 func generate(r *lib.Rng, tier string) *gg.Case {
 	o := gg.Quick()
 	if tier == "thorough" {
@@ -182,7 +238,7 @@ func (engine) Run(c any) lib.Result {
 			}
 		}
 	}
-	obs := gg.Run(&cc.Case, ro)
+	obs := runEntry(&cc.Case, cc.Entry, ro)
 	cs := cc.effective()
 	res := lib.Result{Obs: obs, Tags: gg.Tags(cs, obs)}
 	if cc.RtMax > 0 {
@@ -190,6 +246,14 @@ func (engine) Run(c any) lib.Result {
 	}
 	if delayed {
 		res.Tags = append(res.Tags, "timing:unequal-nodes")
+	}
+	if hasGraphOutKey(&cc.Case) {
+		res.Tags = append(res.Tags, "shape:graph-node-output-key")
+	}
+	if cc.Entry != "" {
+		res.Tags = append(res.Tags, "entry:"+cc.Entry)
+	} else {
+		res.Tags = append(res.Tags, "entry:invoke")
 	}
 	if obs.Class == "compile" {
 		// every generated / recorded case is well-formed by construction (distinct keys, declared end nodes, a
@@ -202,9 +266,9 @@ func (engine) Run(c any) lib.Result {
 		res.Tags = append(res.Tags, "not-in-model:budget")
 		return res
 	}
-	res.CoqTerm = cs.CoqCase(obs)
-	res.Oracle, res.Sig = oraclePregel(cs, obs)
-	if res.Oracle == "" && obs.Class != "hang" && obs.Class != "panic" && cc.RtMax == 0 {
+	res.CoqTerm = lib.CoqApp("Build_ccase", cs.CoqCase(obs), lib.CoqN(cc.entryNo()))
+	res.Oracle, res.Sig = oraclePregel(cs, obs, cc.Entry != "")
+	if res.Oracle == "" && obs.Class != "hang" && obs.Class != "panic" && cc.RtMax == 0 && cc.Entry == "" {
 		// overlapping runs of the same compiled graph (see concurrent.go)
 		switch {
 		case hubShape(cs):
